@@ -154,3 +154,12 @@ theories/Tune/FeatureEditProofs.vos theories/Tune/FeatureEditProofs.vok theories
 theories/Properties_C11.vo theories/Properties_C11.glob theories/Properties_C11.v.beautified theories/Properties_C11.required_vo: theories/Properties_C11.v theories/Gen/FeatureMasks.vo theories/Tune/FeatureEdit.vo theories/Tune/FeatureEditProofs.vo
 theories/Properties_C11.vio: theories/Properties_C11.v theories/Gen/FeatureMasks.vio theories/Tune/FeatureEdit.vio theories/Tune/FeatureEditProofs.vio
 theories/Properties_C11.vos theories/Properties_C11.vok theories/Properties_C11.required_vos: theories/Properties_C11.v theories/Gen/FeatureMasks.vos theories/Tune/FeatureEdit.vos theories/Tune/FeatureEditProofs.vos
+theories/Populate/CopyChunk.vo theories/Populate/CopyChunk.glob theories/Populate/CopyChunk.v.beautified theories/Populate/CopyChunk.required_vo: theories/Populate/CopyChunk.v 
+theories/Populate/CopyChunk.vio: theories/Populate/CopyChunk.v 
+theories/Populate/CopyChunk.vos theories/Populate/CopyChunk.vok theories/Populate/CopyChunk.required_vos: theories/Populate/CopyChunk.v 
+theories/Populate/CopyChunkProofs.vo theories/Populate/CopyChunkProofs.glob theories/Populate/CopyChunkProofs.v.beautified theories/Populate/CopyChunkProofs.required_vo: theories/Populate/CopyChunkProofs.v theories/Populate/CopyChunk.vo
+theories/Populate/CopyChunkProofs.vio: theories/Populate/CopyChunkProofs.v theories/Populate/CopyChunk.vio
+theories/Populate/CopyChunkProofs.vos theories/Populate/CopyChunkProofs.vok theories/Populate/CopyChunkProofs.required_vos: theories/Populate/CopyChunkProofs.v theories/Populate/CopyChunk.vos
+theories/Properties_C18.vo theories/Properties_C18.glob theories/Properties_C18.v.beautified theories/Properties_C18.required_vo: theories/Properties_C18.v theories/Populate/CopyChunk.vo theories/Populate/CopyChunkProofs.vo
+theories/Properties_C18.vio: theories/Properties_C18.v theories/Populate/CopyChunk.vio theories/Populate/CopyChunkProofs.vio
+theories/Properties_C18.vos theories/Properties_C18.vok theories/Properties_C18.required_vos: theories/Properties_C18.v theories/Populate/CopyChunk.vos theories/Populate/CopyChunkProofs.vos
